@@ -13,6 +13,9 @@ pub mod verif_std {
     pub assume_specification<T: Clone> [<[T]>::to_vec] (s: &[T]) -> (r: Vec<T>)
         ensures r@ == s@;
 
+    pub assume_specification<T: std::cmp::Ord + std::marker::Destruct> [std::cmp::max] (a: T, b: T) -> (r: T)
+        ensures r == a || r == b;
+
     pub assume_specification<T: Clone> [<[T] as std::borrow::ToOwned>::to_owned] (s: &[T]) -> (r: Vec<T>)
         ensures r@ == s@;
 
@@ -132,11 +135,20 @@ pub mod verif_std {
         fn next(&mut self) -> Option<u32> { unimplemented!() }
     }
 
+    // `&v[..]` is specified by vstd as a full subrange
+    pub broadcast proof fn subrange_full<T>(s: Seq<T>)
+        ensures #[trigger] s.subrange(0, s.len() as int) == s
+    { assert(s.subrange(0, s.len() as int) =~= s); }
+
+    // `slice.as_ref()` for T: AsRef<[u8]> (no relation between the argument and the bytes is modelled)
+    #[verifier::external_body]
+    pub fn verif_as_ref<T: AsRef<[u8]>>(t: &T) -> (r: &[u8]) { t.as_ref() }
+
     pub broadcast proof fn arr_ext<const N: usize>(a: [u8; N], b: [u8; N])
         ensures #[trigger] a@ == #[trigger] b@ ==> a == b
     { if a@ == b@ { assert(a =~= b); } }
     pub broadcast group verif_std_axioms {
         iter_seq_vec, iter_seq_arr4, iter_seq_refarr4, iter_seq_refvec, iter_seq_slice,
-        le32_len, lei32_len, le32_inj, lei32_inj, arr_of_view, arr_ext, vec_of_view,
+        le32_len, lei32_len, le32_inj, lei32_inj, arr_of_view, arr_ext, vec_of_view, subrange_full,
     }
 }
